@@ -1,8 +1,8 @@
 (* Proofs/ParserChecks.v — the decidable side conditions of C04 on the REGENERATED tables and decoder skeletons
    against Spec/RespFormats.v, and what they imply. *)
 From Coq Require Import String Lia.
-From PS Require Import Base.Bytes Base.Result Model.Converter Model.Parser Model.ParserInst Model.CorrUtil.
-From PS Require Import Proofs.Codec Proofs.Layout Proofs.ParserProps Spec.RespFormats Gen.Tables Gen.Parsers.
+From PS Require Import Base.Bytes Base.Result Model.Converter Model.Parser Model.ParserInst Model.CorrUtil Model.VarList.
+From PS Require Import Proofs.Codec Proofs.Layout Proofs.ParserProps Proofs.VarListProps Spec.RespFormats Gen.Tables Gen.Parsers.
 Set Default Timeout 60.
 Open Scope string_scope.
 Open Scope N_scope.
@@ -93,3 +93,47 @@ Qed.
 Lemma std_read_firstn data n b m w : (N.to_nat b + span m w <= n)%nat ->
   std_read (firstn n data) b m w = std_read data b m w.
 Proof. intros H. unfold std_read. now rewrite slice_firstn. Qed.
+
+(* ---------- lists of self-describing descriptors ---------- *)
+
+Definition vp_eqb (p : vparams) (q : nat * nat * nat) : bool :=
+  let '(f, a, b) := q in Nat.eqb (vp_fixed p) f && Nat.eqb (vp_a p) a && Nat.eqb (vp_b p) b.
+
+(* every decoder the specification names walks its descriptors by the standard's length field, and no decoder walks
+   a self-describing list the specification does not know *)
+Definition var_lists_ok : bool :=
+  forallb (fun sf => existsb (fun v => String.eqb (fst (fst v)) (fst sf) && vp_eqb (snd v) (snd sf)) var_lists) var_list_formats
+  && forallb (fun v => existsb (fun sf => String.eqb (fst (fst v)) (fst sf) && vp_eqb (snd v) (snd sf)) var_list_formats) var_lists.
+
+Definition walk_named (fn : string) (region : bytes) : option (list bytes) :=
+  match find (fun v => String.eqb (fst (fst v)) fn) var_lists with
+  | Some (_, p) => vchunks p (length region) region
+  | None => None
+  end.
+
+Theorem var_lists_sound : var_lists_ok = true ->
+  forall fn f a b, In (fn, (f, a, b)) var_list_formats ->
+  exists p, find (fun v => String.eqb (fst (fst v)) fn) var_lists = Some p /\
+            vp_fixed (snd p) = f /\ vp_a (snd p) = a /\ vp_b (snd p) = b.
+Proof.
+  intros H fn f a b Hin. unfold var_lists_ok in H. apply andb_prop in H as [H1 H2].
+  rewrite forallb_forall in H1. specialize (H1 _ Hin). cbn [fst snd] in H1.
+  apply existsb_exists in H1 as (v & Hv & Hm). apply andb_prop in Hm as [Hn Hp].
+  (* the first entry found for fn satisfies the same equation because every entry of var_lists does (H2) *)
+  destruct (find (fun v => String.eqb (fst (fst v)) fn) var_lists) as [p|] eqn:Hf.
+  - exists p. split; [reflexivity|].
+    apply find_some in Hf as [Hpin Hpn]. rewrite forallb_forall in H2. specialize (H2 _ Hpin).
+    apply existsb_exists in H2 as (sf & Hsf & Hm2). apply andb_prop in Hm2 as [Hn2 Hp2].
+    apply String.eqb_eq in Hpn, Hn2.
+    (* sf is the specification entry of the same decoder; the specification lists each decoder once *)
+    assert (Hone : snd sf = (f, a, b)).
+    { assert (Hu : forallb (fun x => forallb (fun y => negb (String.eqb (fst x) (fst y)) || (let '(f1, a1, b1) := snd x in let '(f2, a2, b2) := snd y in
+                                   Nat.eqb f1 f2 && Nat.eqb a1 a2 && Nat.eqb b1 b2)) var_list_formats) var_list_formats = true) by (vm_compute; reflexivity).
+      rewrite forallb_forall in Hu. specialize (Hu _ Hsf). rewrite forallb_forall in Hu. specialize (Hu _ Hin).
+      cbn [fst snd] in Hu. rewrite <- Hn2, Hpn, String.eqb_refl in Hu. cbn [negb orb] in Hu.
+      destruct (snd sf) as [[f1 a1] b1]. repeat (apply andb_prop in Hu; destruct Hu as [Hu ?]).
+      repeat match goal with E : Nat.eqb _ _ = true |- _ => apply Nat.eqb_eq in E end. congruence. }
+    unfold vp_eqb in Hp2. rewrite Hone in Hp2. repeat (apply andb_prop in Hp2; destruct Hp2 as [Hp2 ?]).
+    repeat match goal with E : Nat.eqb _ _ = true |- _ => apply Nat.eqb_eq in E end. auto.
+  - exfalso. apply String.eqb_eq in Hn. eapply (find_none _ _ Hf) in Hv. cbn beta in Hv. rewrite Hn, String.eqb_refl in Hv. discriminate.
+Qed.
